@@ -301,6 +301,43 @@ def hdr_key_qualified(fn):
     raise TranslateError('Soap11.deserialize: unrecognised header lookup key')
 
 
+def client_merge(fn):
+    """RemoteProcedureBase.get_out_object: how sequential and name-based arguments become the request object.
+    'MergeKwWins': a name-based argument that is PASSED (k in kwargs) replaces the sequential one, whatever its value;
+    'MergeKwTruthyWins': it does so only when it is truthy (kwargs.get(k) or ...).  Anything else is not recognised."""
+    def is_kwargs_get(e, nargs):
+        return isinstance(e, ast.Call) and attr_chain(e.func) == ['kwargs', 'get'] and len(e.args) == nargs and not e.keywords
+    sets = [c for c in ast.walk(fn) if isinstance(c, ast.Call) and is_name(c.func, 'setattr') and len(c.args) == 3]
+    if not sets or any(not is_name(c.args[0], sets[0].args[0].id if isinstance(sets[0].args[0], ast.Name) else None) for c in sets):
+        raise TranslateError('get_out_object: no setattr(request object, key, value) calls')
+    vals = [c.args[2] for c in sets]
+    if len(sets) == 1:
+        v = vals[0]
+        if isinstance(v, ast.BoolOp) and isinstance(v.op, ast.Or) and len(v.values) == 2 and is_kwargs_get(v.values[0], 1) \
+                and isinstance(v.values[1], ast.Call) and isinstance(v.values[1].func, ast.Attribute) and v.values[1].func.attr == 'get':
+            return 'MergeKwTruthyWins'
+        if isinstance(v, ast.IfExp) and isinstance(v.test, ast.Compare) and len(v.test.ops) == 1 and isinstance(v.test.ops[0], ast.In) \
+                and is_name(v.test.comparators[0], 'kwargs') and isinstance(v.body, ast.Subscript) and is_name(v.body.value, 'kwargs') \
+                and isinstance(v.orelse, ast.Call) and isinstance(v.orelse.func, ast.Attribute) and v.orelse.func.attr == 'get':
+            return 'MergeKwWins'
+        if is_kwargs_get(v, 2) and isinstance(v.args[1], ast.Call) and isinstance(v.args[1].func, ast.Attribute) and v.args[1].func.attr == 'get':
+            return 'MergeKwWins'
+        raise TranslateError('get_out_object: unrecognised merge of sequential and name-based arguments')
+    if len(sets) == 3:
+        # for i in range(len(T)): if i < len(args): setattr(r, T.keys()[i], args[i]) else: setattr(r, T.keys()[i], None)
+        # for k in T: if k in kwargs: setattr(r, k, kwargs[k])
+        pos = [v for v in vals if isinstance(v, ast.Subscript) and is_name(v.value, 'args')]
+        none = [v for v in vals if isinstance(v, ast.Constant) and v.value is None]
+        kw = [v for v in vals if isinstance(v, ast.Subscript) and is_name(v.value, 'kwargs')]
+        if len(pos) == 1 and len(none) == 1 and len(kw) == 1:
+            guard = [i for i in ast.walk(fn) if isinstance(i, ast.If) and any(c is sets[vals.index(kw[0])] for c in ast.walk(i))]
+            ok = [i for i in guard if isinstance(i.test, ast.Compare) and len(i.test.ops) == 1 and isinstance(i.test.ops[0], ast.In)
+                  and is_name(i.test.comparators[0], 'kwargs') and not i.orelse]
+            if ok and len(guard) == 1:
+                return 'MergeKwWins'
+    raise TranslateError('get_out_object: unrecognised merge of sequential and name-based arguments')
+
+
 def parser_flag(init, key):
     """XmlDocument.__init__: the value of self.parser_kwargs[key] of a protocol built with the default arguments
     (a literal, or the default of the __init__ parameter handed on); a key that is not passed is lxml's default, False"""
@@ -341,6 +378,7 @@ def generate(repo):
     xi = bare_index(find_function(xml, ['XmlDocument', 'serialize']), 'result_inst', 'XmlDocument.serialize')
     si = bare_index(find_function(soap, ['Soap11', 'serialize']), 'out_object', 'Soap11.serialize')
     hq = hdr_key_qualified(find_function(soap, ['Soap11', 'deserialize']))
+    cm_rule = client_merge(find_function(parse(repo, 'spyne/client/_base.py'), ['RemoteProcedureBase', 'get_out_object']))
     init = find_function(xml, ['XmlDocument', '__init__'])
     rc, rp = parser_flag(init, 'remove_comments'), parser_flag(init, 'remove_pis')
     out = ['(* GENERATED by harness/translate/xmlwire.py from spyne/protocol/xml.py, spyne/protocol/soap/soap11.py,',
@@ -358,6 +396,9 @@ def generate(repo):
            'Definition xw_alt_inherited : bool := %s.' % ('true' if alt_inh else 'false'), '',
            '(* Soap11.deserialize: header blocks are matched to the declared classes by {namespace}name (false: by local name) *)',
            'Definition xw_hdr_qualified : bool := %s.' % ('true' if hq else 'false'), '',
+           '(* RemoteProcedureBase.get_out_object: a name-based argument that is passed replaces the sequential one always / only when truthy *)',
+           'Inductive merge_rule := MergeKwWins | MergeKwTruthyWins.',
+           'Definition xw_client_merge : merge_rule := %s.' % cm_rule, '',
            '(* XmlDocument.__init__, self.parser_kwargs of a protocol built with the default arguments *)',
            'Definition xw_remove_comments : bool := %s.' % ('true' if rc else 'false'),
            'Definition xw_remove_pis : bool := %s.' % ('true' if rp else 'false'), '',
